@@ -313,6 +313,12 @@ def get_image_from_uri(cache, url_fetcher, options, url, forced_mime_type=None,
                 string = result['string']
             else:
                 string = result['file_obj'].read()
+            if filename:
+                # Read the local file again later only if it has been read now,
+                # not if the URL fetcher got the content from somewhere else.
+                path = Path(filename)
+                if not path.is_file() or path.stat().st_size != len(string):
+                    filename = None
             mime_type = forced_mime_type or result['mime_type']
 
         image = None
